@@ -3,7 +3,7 @@
    snapshot table (QCow2.snapshots / QCow2Snapshot.__init__).  Model of the REPAIRED code
    (fixes/C14-qcow2-v2-header.diff, fixes/C14-qcow2-snapshot-entry.diff).  No proofs here. *)
 From Coq Require Import String ZArith List Bool Lia.
-From DH Require Import Base.Plan Base.Layout Gen.Consts Gen.Layouts Model.MetaCodec.
+From DH Require Import Base.Plan Base.Layout Gen.Consts Gen.Layouts Gen.MetaQcow2Tables Model.MetaCodec.
 Import ListNotations.
 Open Scope list_scope.
 Open Scope Z_scope.
@@ -12,13 +12,13 @@ Definition QBIG := qcow2_big_endian.
 
 (* the byte offsets the code hard-wires; pinned to the generated layout in Proofs/MetaQcow2.v *)
 Definition Q_V2_HEADER_LENGTH : Z := 72.
-Definition Q_COMPRESSION_OFFSET : Z := 104.
+Definition Q_COMPRESSION_OFFSET : Z := meta_qcow2_compression_offset.   (* the literal in qcow2.py *)
 
 Definition read_qhdr (rd : reader) : res record :=
   read_struct rd QBIG qcow2_QCowHeader_layout qcow2_QCowHeader_size 0.
 
 (* ---------- header extensions ---------- *)
-Definition pad8 (len : Z) : Z := Z.land (len + 7) 4294967288.
+Definition pad8 (len : Z) : Z := Z.land (len + 7) meta_qcow2_pad_mask.   (* (ext.len + 7) & 0xFFFFFFF8 *)
 
 Definition ext_hdr (rd : reader) (o : Z) : res (Z * Z) :=
   do r <- read_struct rd QBIG qcow2_QCowExtension_layout qcow2_QCowExtension_size o;
